@@ -92,6 +92,47 @@ func gen(t *rapid.T) Case {
 		fc := rapid.Map(rapid.Float64Range(-1, 1), func(v float64) float64 { return v*scale + off*scale })
 		c.Polys = genPolys(t, fc, 9)
 		c.Pt = vkit.MkP(fc.Draw(t, "px"), fc.Draw(t, "py"))
+		if rapid.IntRange(0, 3).Draw(t, "nearlyclosed") == 1 {
+			// rings that are closed up to rounding only: the last vertex is the first one moved by one to three steps to the
+			// neighbouring floating-point number (in y, in x or in both), as a ring that went through arithmetic has it - the
+			// sliver between the two is an edge like any other
+			for _, pg := range c.Polys {
+				for j, r := range pg {
+					if len(r) >= 3 && rapid.Bool().Draw(t, "nearlyclosedring") {
+						f := r[0]
+						nx, ny := float64(f[0]), float64(f[1])
+						for k, n := 0, rapid.IntRange(1, 3).Draw(t, "ulps"); k < n; k++ {
+							switch rapid.IntRange(0, 2).Draw(t, "ulpaxis") {
+							case 0:
+								ny = math.Nextafter(ny, math.Inf(1))
+							case 1:
+								ny = math.Nextafter(ny, math.Inf(-1))
+							default:
+								nx = math.Nextafter(nx, math.Inf(1))
+							}
+						}
+						pg[j] = append(append([]vkit.P2{}, r...), vkit.MkP(nx, ny))
+					}
+				}
+			}
+		}
+		if rapid.IntRange(0, 2).Draw(t, "rayvertex") == 1 {
+			// the query point at exactly the height (or abscissa) of a vertex: the ray from the point runs through it
+			var vs []vkit.P2
+			for _, pg := range c.Polys {
+				for _, r := range pg {
+					vs = append(vs, r...)
+				}
+			}
+			if len(vs) > 0 {
+				q := vs[rapid.IntRange(0, len(vs)-1).Draw(t, "rayv")]
+				if rapid.IntRange(0, 3).Draw(t, "rayx") == 0 {
+					c.Pt = vkit.MkP(float64(q[0]), float64(c.Pt[1]))
+				} else {
+					c.Pt = vkit.MkP(float64(c.Pt[0]), float64(q[1]))
+				}
+			}
+		}
 	}
 	if len(c.Polys) == 1 {
 		c.AsPoly = rapid.Bool().Draw(t, "aspoly")
